@@ -25,6 +25,8 @@ def run(ctx):
     # follow whatever propagation_traits<LedgerAlloc> says (the header line carries the values)
     for pv in ("subj_container_pv1", "subj_container_pv2"):
         common.run_sweep(ctx, "C10", pv, ["rwdi"], ["0", ctx.seed], ["ct ", "cteq "], subject="container-" + pv[-3:])
+    # an allocator with shared semantics (is_shared_allocator: std_allocator holds a copy of the handle; equal iff same shared state)
+    common.run_sweep(ctx, "C10", "subj_container_sh", ["rwdi"], ["0", ctx.seed], ["ct ", "cteq "], subject="container-shared")
     if ctx.thorough:
         # every element size 1..128 x every alignment dividing it (248 types) x 11 containers
         import buildlib
